@@ -304,6 +304,7 @@ func (sf *SpecFile) merge(sub *SpecFile, prefix string) error {
 	}
 	sf.Guarded = append(sf.Guarded, sub.Guarded...)
 	sf.TableExceptions = append(sf.TableExceptions, sub.TableExceptions...)
+	sf.OpTable = append(sf.OpTable, sub.OpTable...)
 	for _, c := range sub.GlobalInvs {
 		c.Pkg = strings.TrimSuffix(prefix, ".")
 		sf.GlobalInvs = append(sf.GlobalInvs, c)
